@@ -141,6 +141,20 @@ pub fn bulk(run: &mut crate::common::Run, n: usize) {
     use cosmian_cover_crypt::{AccessPolicy, MasterSecretKey, UserSecretKey};
     use cosmian_crypto_core::bytes_ser_de::Serializable;
     use serde_json::json;
+    // a master key saved before it issued any key must refuse every key issued afterwards
+    {
+        let mut fresh = crate::ftamper::w1();
+        let saved = crate::world::ser(&fresh.msk);
+        if let (Ok(late), Ok(mut restored)) = (fresh.cc.generate_user_secret_key(&mut fresh.msk, &AccessPolicy::parse("A::x").unwrap()), MasterSecretKey::deserialize(&saved)) {
+            for keep in [true, false] {
+                let mut c = late.clone();
+                if fresh.cc.refresh_usk(&mut restored, &mut c, keep).is_ok() {
+                    run.report(None, "C17.f", &format!("a master key that was saved before it issued any key accepts (refresh keep={keep}) a key issued afterwards: its identifier is not registered there"), json!({"engine": "tracing-bulk"}));
+                    return;
+                }
+            }
+        }
+    }
     let mut b = crate::ftamper::w1();
     let pols = ["A::x", "A::y && H::lo", "H::hi", "*"];
     let mut keys: Vec<UserSecretKey> = vec![];
